@@ -223,6 +223,13 @@ Theorem C06_loop_enter_spec : forall used count, 0 <= used <= 65536 ->
   (65536 - used < count -> loop_enter used count = SDiag diag_loop_budget).
 Proof. exact loop_enter_spec. Qed.
 Print Assumptions C06_loop_enter_spec.
+(* a negative count refunds nothing: the counter of started iterations never decreases; and the loop arm never panics *)
+Theorem C06_loop_enter_monotone : forall used count u, 0 <= used <= 65536 -> loop_enter used count = SOk u -> used <= u.
+Proof. exact loop_enter_monotone. Qed.
+Print Assumptions C06_loop_enter_monotone.
+Theorem C06_loop_enter_total : forall used count, 0 <= used <= 65536 -> loop_enter used count <> SPanic.
+Proof. exact loop_enter_total. Qed.
+Print Assumptions C06_loop_enter_total.
 (* any sequence of loops a pass enters (nested ones re-entered per outer iteration): at most 65536 iterations are started *)
 Theorem C06_loops_of_a_pass_bounded : forall counts used, 0 <= used <= 65536 -> 0 <= run_loops used counts <= 65536.
 Proof. exact run_loops_bounded. Qed.
